@@ -64,6 +64,7 @@ type REntry struct {
 	Part     int64    `json:"p,omitempty"`
 	PartName string   `json:"pn,omitempty"`
 	Rows     []int64  `json:"rows,omitempty"`
+	Parts    []int64  `json:"parts,omitempty"` // Kind "imp": the source partition ids an import message names
 	Tag      int64    `json:"tag,omitempty"`
 	Op       *WDEvent `json:"op,omitempty"` // Kind "op": an operation message on the replicate channel
 }
@@ -495,6 +496,21 @@ func GenR(rng *Rng, prop string, tier string) *RScript {
 				rowID++
 				e2.Rows = []int64{rowID}
 				app(pch, e2)
+			}
+		}
+		// a bulk-import message naming every live partition of a collection (C06 runs: a failure class of its own when one
+		// of them cannot be resolved downstream)
+		if prop == "C06" && rng.Pct(30) {
+			l := Pick(rng, lives)
+			if !l.dropped && len(l.c.SrcV) > 0 {
+				var pids []int64
+				for _, p := range l.c.Parts {
+					if l.liveP[p.ID] {
+						pids = append(pids, p.ID)
+					}
+				}
+				shard := rng.Intn(len(l.c.SrcV))
+				app(physOf(l.c.SrcV[shard]), &REntry{Ts: nextTs(false), Kind: "imp", Coll: l.c.ID, Shard: shard, Parts: pids, Tag: newTag()})
 			}
 		}
 		// unsupported / filtered message kinds
